@@ -36,7 +36,7 @@ let show_eres = function
   | EErr -> "X" | EDrop -> "D"
   | ERow w -> "R {" ^ String.concat "" (List.map (fun (k, x) -> " " ^ ascii_of_bytes k ^ " " ^
                   (match x with WV v -> tok_of_kv v | WR r -> show_row r)) w) ^ " }"
-let show_out = function OutE e -> show_eres e | OutU b -> "U" ^ b01 b | OutD -> "Dl"
+let show_out = function OutE e -> show_eres e | OutU b -> "U" ^ b01 b | OutD -> "Dl" | OutG b -> "G" ^ b01 b
 
 let string_of_clause = function
   | JoinS.ClKeyEquality -> "key_equality" | JoinS.ClKeptDropped -> "kept_vs_dropped"
@@ -107,35 +107,50 @@ let pconfig (cfgt : string list) =
     | t -> failwith ("bad where " ^ t)) in
   (q, sel, wc)
 
+(* <table> <A | nk keys...> <nrows> rows... *)
+let preg c : reg_call =
+  let name = bytes_of_ascii (next c) in
+  let keys = (match next c with
+    | "A" -> None
+    | nk -> Some (times (int_of_string nk) (fun () -> bytes_of_ascii (next c)))) in
+  let nr = int c in
+  let rows = times nr (fun () -> prow c) in
+  ((name, keys), rows)
+
 (* <n> { name <A | nk keys...> <nrows> rows... }    A = RegisterTable without key fields (derived from ON) *)
 let pregs (regt : string list) : reg_call list =
   let c = { t = regt } in
   let nt = int c in
-  times nt (fun () ->
-    let name = bytes_of_ascii (next c) in
-    let keys = (match next c with
-      | "A" -> None
-      | nk -> Some (times (int_of_string nk) (fun () -> bytes_of_ascii (next c)))) in
-    let nr = int c in
-    let rows = times nr (fun () -> prow c) in
-    ((name, keys), rows))
+  times nt (fun () -> preg c)
 
-let pops (opt : string list) : (op * out) list =
+(* operations of a history with what the implementation returned. Besides E / Y / U / D:
+     G <R|S> <table> <A | nk keys...> <nrows> rows... <ok>   RegisterTable (R) / RegisterTableSource of a new
+                                                             memory source (S) in the middle of the history
+     Z U <table> <row> | Z D <table> <S v | T tuple>          Upsert / Delete through the handle of a source
+                                                             that a later registration has replaced *)
+let pops (opt : string list) : (hcall * out) list =
   let c = { t = opt } in
-  let rec go () : (op * out) list =
+  let pdel () =
+    let t = bytes_of_ascii (next c) in
+    let k = (match next c with
+      | "S" -> DSingle (kv_of_tok (next c))
+      | "T" -> DTuple (tuple c)
+      | _ -> failwith "bad delete key") in
+    ODelete (t, k) in
+  let rec go () : (hcall * out) list =
     match peek c with
     | None -> []
     | Some _ ->
       let x = (match next c with
-        | "E" -> let r = prow c in let e = pres c in (OEmit r, OutE e)
-        | "Y" -> let r = prow c in let e = pres c in (OEmitSync r, OutE e)
-        | "U" -> let t = bytes_of_ascii (next c) in let r = prow c in let ok = (next c = "1") in (OUpsert (t, r), OutU ok)
-        | "D" -> let t = bytes_of_ascii (next c) in
-                 let k = (match next c with
-                   | "S" -> DSingle (kv_of_tok (next c))
-                   | "T" -> DTuple (tuple c)
-                   | _ -> failwith "bad delete key") in
-                 (ODelete (t, k), OutD)
+        | "E" -> let r = prow c in let e = pres c in (HCOp (OEmit r), OutE e)
+        | "Y" -> let r = prow c in let e = pres c in (HCOp (OEmitSync r), OutE e)
+        | "U" -> let t = bytes_of_ascii (next c) in let r = prow c in let ok = (next c = "1") in (HCOp (OUpsert (t, r)), OutU ok)
+        | "D" -> let o = pdel () in (HCOp o, OutD)
+        | "G" -> ignore (next c); let r = preg c in let ok = (next c = "1") in (HCReg r, OutG ok)
+        | "Z" -> (match next c with
+                  | "U" -> let t = bytes_of_ascii (next c) in let r = prow c in (HCDetached (OUpsert (t, r)), OutD)
+                  | "D" -> let o = pdel () in (HCDetached o, OutD)
+                  | _ -> failwith "bad detached write")
         | t -> failwith ("bad op " ^ t)) in
       x :: go () in
   go ()
@@ -144,15 +159,21 @@ let pops (opt : string list) : (op * out) list =
    compared with the code-level model. A chk verdict says whether some ON equality is written
    table = stream ("on_swapped": the recorded finding) and whether the code-level model still agrees with
    the implementation ("model differs" = a behaviour change, never a recorded finding). *)
-let judge (q, sel, wc) (regs : reg_call list) (ol : (op * out) list) : string option =
+let is_reg = function HCReg _ -> true | _ -> false
+let judge (q, sel, wc) (regs : reg_call list) (ol : (hcall * out) list) : string option =
   let ops = List.map fst ol and impl = List.map snd ol in
-  let m = JoinS.api_run sel wc ops (model_run_sql q regs ops) in
+  let m = JoinS.api_hrun sel wc ops (model_hrun_sql q regs ops) in
   let mdiff = JoinS.chk_outs O m impl in
-  match JoinS.chk_C16_sql q sel wc regs ops impl with
+  match JoinS.chk_C16_hsql q sel wc regs ops impl with
   | Some (i, cl) ->
-      let exp = List.nth (JoinS.api_run sel wc ops (spec_run_sql q regs ops)) (int_of_nat i) in
-      Some (Printf.sprintf "chk %s op=%d expected=%s impl=%s%s%s" (string_of_clause cl) (int_of_nat i)
-              (show_out exp) (show_out (List.nth impl (int_of_nat i)))
+      let i = int_of_nat i in
+      let exp = List.nth (JoinS.api_hrun sel wc ops (spec_hrun_sql q regs ops)) i in
+      (* how many (re-)registrations precede the failing operation: the table state it must see is that
+         of the last one *)
+      let nreg = List.length (List.filter is_reg (List.filteri (fun j _ -> j < i) ops)) in
+      Some (Printf.sprintf "chk %s op=%d expected=%s impl=%s%s%s%s" (string_of_clause cl) i
+              (show_out exp) (show_out (List.nth impl i))
+              (if nreg > 0 then Printf.sprintf " after_reregistration=%d" nreg else "")
               (if well_oriented q then "" else " on_swapped")
               (if mdiff = None then "" else " model differs"))
   | None ->
@@ -175,7 +196,7 @@ let handle_J (toks : string list) : string =
            let ops = List.map fst ol and impl = List.map snd ol in
            let kept = List.exists (function OutE (ERow _) -> true | _ -> false) impl
            and dropped_or_null = List.exists (function OutE EDrop -> true | _ -> false) impl
-           and ups = List.exists (function OUpsert _ -> true | _ -> false) ops in
+           and ups = List.exists (function HCOp (OUpsert _) -> true | _ -> false) ops in
            if kept && ups && (dropped_or_null || List.exists (fun j -> j.jt_left) q.q_joins) then "ok nt" else "ok")
   | _ -> "bad line"
 
@@ -199,7 +220,7 @@ let handle_K (toks : string list) : string =
       (match each 0 gs with
        | Some v -> v
        | None ->
-           let writes = List.filter (fun (o, _) -> match o with OUpsert _ | ODelete _ -> true | _ -> false) (List.concat gs) in
+           let writes = List.filter (fun (o, _) -> match o with HCOp (OUpsert _) | HCOp (ODelete _) -> true | _ -> false) (List.concat gs) in
            (match judge cfg regs (writes @ probes) with
             | Some v -> Printf.sprintf "%s after_all_writers_returned writes=%d" v (List.length writes)
             | None -> if List.length writes > 0 then "ok nt" else "ok"))
